@@ -489,16 +489,34 @@ def r8_add_missing_columns_keeps_frame(ctx):
         if not sels:
             ctx.ob("R8", f0, f"{flavour} add_missing_columns keeps the frame's own columns", True, "no re-selection of columns: columns are only added")
             continue
+        cfg8 = cfg_of(f.node)
+        rd8 = cfg8.reaching_defs()
         for node, a in sels:
             from_frame = False
-            for d in ex.closure(a):
+            acc_ok = True
+            if isinstance(a, ast.Name):
+                from ..util import enclosing_stmt
+                nd = cfg8.node_of(enclosing_stmt(node))
+                defs = [cfg8.nodes[d] for d in (rd8.get(nd.id, {}).get(a.id, set()) if nd is not None else set())]
+                vals = [d.ast.value for d in defs if d.kind == "stmt" and isinstance(d.ast, ast.Assign)]
+                # the list that reaches the selection was (re)built by a plain assignment: judge that value, not the loop that filled an earlier one
+                if vals and not any(isinstance(v, (ast.List, ast.Tuple)) and not v.elts for v in vals):
+                    acc_ok = False
+                    for v in vals:
+                        for d in ex.closure(v):
+                            for x in ast.walk(d):
+                                if isinstance(x, ast.Attribute) and x.attr == "columns" and isinstance(x.value, ast.Name) and x.value.id == data:
+                                    from_frame = True
+                                if isinstance(x, ast.Call) and callee_last(x) in ("get_lazyframe_column_names", "collect_schema") and data in txt(x):
+                                    from_frame = True
+            for d in (ex.closure(a) if acc_ok else []):
                 for x in ast.walk(d):
                     if isinstance(x, ast.Attribute) and x.attr == "columns" and isinstance(x.value, ast.Name) and x.value.id == data:
                         from_frame = True
                     if isinstance(x, ast.Call) and callee_last(x) in ("get_lazyframe_column_names", "collect_schema") and data in txt(x):
                         from_frame = True
             # accumulators filled while looping over the frame's columns
-            for nm in {x.id for d in ex.closure(a) for x in ast.walk(d) if isinstance(x, ast.Name)} | ({a.id} if isinstance(a, ast.Name) else set()):
+            for nm in set() if not acc_ok else {x.id for d in ex.closure(a) for x in ast.walk(d) if isinstance(x, ast.Name)} | ({a.id} if isinstance(a, ast.Name) else set()):
                 for lp in walk_no_nested(f.node):
                     if isinstance(lp, ast.For) and any(isinstance(x, ast.Attribute) and x.attr == "columns" and isinstance(x.value, ast.Name) and x.value.id == data
                                                        for x in ast.walk(lp.iter)):
